@@ -546,4 +546,169 @@ theorem runFrom_ends (tx : List TOp) : ∀ (rest : List TOp) (i : Nat) (w w' : W
         · cases h1
     · cases h
 
+/-! ### every position of a committed transaction was reached, with the pending-ends invariant -/
+
+theorem runFrom_at (tx : List TOp) : ∀ (rest : List TOp) (i : Nat) (w w' : WState), tx.drop i = rest →
+    WState.runFrom tx i rest w = some w' → Pending tx i w →
+    ∀ (j : Nat) (t : TOp), i ≤ j → tx[j]? = some t → ∃ (wj wj' : WState), Pending tx j wj ∧ wj.stepIn tx j t = some wj' := by
+  intro rest
+  induction rest with
+  | nil =>
+    intro i w w' hd h hp j t hij hj
+    have hlen : tx.length ≤ i := by
+      rcases Nat.lt_or_ge i tx.length with h1 | h1
+      · have : (tx.drop i).length = tx.length - i := List.length_drop
+        rw [hd] at this; simp at this; omega
+      · exact h1
+    have : j < tx.length := by
+      rcases Nat.lt_or_ge j tx.length with h1 | h1
+      · exact h1
+      · rw [List.getElem?_eq_none h1] at hj; cases hj
+    omega
+  | cons op rest ih =>
+    intro i w w' hd h hp j t hij hj
+    obtain ⟨hti, hd'⟩ := drop_cons_facts hd
+    simp only [WState.runFrom] at h
+    split at h
+    · rename_i w1 h1
+      rcases Nat.lt_or_ge i j with hlt | hge
+      · exact ih (i + 1) w1 w' hd' h (stepIn_pending hti h1 hp) j t (by omega) hj
+      · have : j = i := by omega
+        subst this
+        rw [hti] at hj
+        injection hj with hj
+        subst hj
+        exact ⟨w, w1, hp, h1⟩
+    · cases h
+
+/-- **a borrow inside a committed transaction is backed by an initial-margin check**: either the borrow's own (the account was
+    not in a flash loan: the check ran on the state the borrow left), or the one of the account's end_flashloan further down
+    the same transaction (which ran on the state the whole bracket left) -/
+theorem tx_borrow_checked {w w' : WState} {tx : List TOp} (h : w.runTx tx = some w')
+    (h0 : ∀ (k : Nat) (a : AcctV), w.accts[k]? = some a → inFlash a = false)
+    {i ai bi signer : Nat} {amount : Int} (hi : tx[i]? = some (.ix (.borrow ai bi signer amount))) :
+    (∃ (wi : WState) (a : AcctV) (b : WBank) (o : Out), wi.accts[ai]? = some a ∧ wi.banks[bi]? = some b ∧
+        borrow (wi.ctx a b signer b.v.liquidityVault 0) amount = .ok o ∧ inFlash a = false ∧
+        initHealth (wi.ctx a b signer b.v.liquidityVault 0) o.slots o.books = .ok ()) ∨
+    (∃ (j s : Nat) (wj : WState) (a : AcctV) (f : Nat), i < j ∧ tx[j]? = some (.endFlash ai s) ∧ wj.accts[ai]? = some a ∧
+        endFlashloan (wj.actx a s) 1 = .ok f) := by
+  have hp0 : Pending tx 0 w := by
+    intro k a hk hf
+    rw [h0 k a hk] at hf; cases hf
+  obtain ⟨wi, wi', hpi, hst⟩ := runFrom_at tx tx 0 w w' rfl h hp0 i _ (Nat.zero_le _) hi
+  simp only [WState.stepIn, WState.step?] at hst
+  split at hst
+  · rename_i a b ha hb
+    split at hst
+    · rename_i o ho
+      cases hfa : inFlash a with
+      | false =>
+        left
+        exact ⟨wi, a, b, o, ha, hb, ho, hfa, (borrow_ok ho).health⟩
+      | true =>
+        right
+        obtain ⟨j, s, hij, hj⟩ := hpi ai a ha hfa
+        have hne : j ≠ i := by
+          intro e; subst e; rw [hi] at hj; cases hj
+        obtain ⟨wj, a', f, ha', hf⟩ := runFrom_ends tx tx 0 w w' rfl h j ai s (Nat.zero_le _) hj
+        exact ⟨j, s, wj, a', f, by omega, hj, ha', hf⟩
+    · cases hst
+  · cases hst
+
+/-- the same for a withdrawal outside receivership -/
+theorem tx_withdraw_checked {w w' : WState} {tx : List TOp} (h : w.runTx tx = some w')
+    (h0 : ∀ (k : Nat) (a : AcctV), w.accts[k]? = some a → inFlash a = false)
+    {i ai bi signer : Nat} {amount vault : Int} {all : Bool} (hi : tx[i]? = some (.ix (.withdraw ai bi signer amount all vault))) :
+    (∃ (wi : WState) (a : AcctV) (b : WBank) (o : Out), wi.accts[ai]? = some a ∧ wi.banks[bi]? = some b ∧
+        withdraw (wi.ctx a b signer b.v.liquidityVault vault) amount all = .ok o ∧ inFlash a = false ∧
+        withdrawHealth (wi.ctx a b signer b.v.liquidityVault vault) o.slots o.books = .ok ()) ∨
+    (∃ (j s : Nat) (wj : WState) (a : AcctV) (f : Nat), i < j ∧ tx[j]? = some (.endFlash ai s) ∧ wj.accts[ai]? = some a ∧
+        endFlashloan (wj.actx a s) 1 = .ok f) := by
+  have hp0 : Pending tx 0 w := by
+    intro k a hk hf
+    rw [h0 k a hk] at hf; cases hf
+  obtain ⟨wi, wi', hpi, hst⟩ := runFrom_at tx tx 0 w w' rfl h hp0 i _ (Nat.zero_le _) hi
+  simp only [WState.stepIn, WState.step?] at hst
+  split at hst
+  · rename_i a b ha hb
+    split at hst
+    · rename_i o ho
+      cases hfa : inFlash a with
+      | false =>
+        left
+        exact ⟨wi, a, b, o, ha, hb, ho, hfa, (withdraw_ok ho).health⟩
+      | true =>
+        right
+        obtain ⟨j, s, hij, hj⟩ := hpi ai a ha hfa
+        have hne : j ≠ i := by
+          intro e; subst e; rw [hi] at hj; cases hj
+        obtain ⟨wj, a', f, ha', hf⟩ := runFrom_ends tx tx 0 w w' rfl h j ai s (Nat.zero_le _) hj
+        exact ⟨j, s, wj, a', f, by omega, hj, ha', hf⟩
+    · cases hst
+  · cases hst
+
+/-! ### the ledger and the shape of every slot array run through transactions too -/
+
+theorem setFlags_inv {w : WState} {ai : Nat} {a : AcctV} {f : Nat} (hi : WInv w) (ha : w.accts[ai]? = some a) : WInv (w.setFlags ai a f) := by
+  obtain ⟨hk, hA, hL⟩ := hi
+  refine ⟨hk, ?_, ?_⟩
+  · intro j b hb
+    simp only [WState.setFlags]
+    rw [sum_map_set (fun x => posA b.v.key x.slots) w.accts ai a _ ha]
+    have := hA j b hb
+    simp only
+    omega
+  · intro j b hb
+    simp only [WState.setFlags]
+    rw [sum_map_set (fun x => posL b.v.key x.slots) w.accts ai a _ ha]
+    have := hL j b hb
+    simp only
+    omega
+
+theorem stepIn_inv {tx : List TOp} {i : Nat} {t : TOp} {w w' : WState} (h : w.stepIn tx i t = some w') (hi : WInv w) : WInv w' := by
+  cases t with
+  | ix op =>
+    simp only [WState.stepIn] at h
+    rw [step?_some h]; exact step_inv w op hi
+  | startFlash ai signer endIdx =>
+    simp only [WState.stepIn] at h
+    split at h
+    · rename_i a ha
+      split at h
+      · injection h with h; subst h; exact setFlags_inv hi ha
+      · cases h
+    · cases h
+  | endFlash ai signer =>
+    simp only [WState.stepIn] at h
+    split at h
+    · rename_i a ha
+      split at h
+      · injection h with h; subst h; exact setFlags_inv hi ha
+      · cases h
+    · cases h
+
+theorem runFrom_inv (tx : List TOp) : ∀ (rest : List TOp) (i : Nat) (w w' : WState),
+    WState.runFrom tx i rest w = some w' → WInv w → WInv w' := by
+  intro rest
+  induction rest with
+  | nil => intro i w w' h hi; simp only [WState.runFrom] at h; injection h with h; subst h; exact hi
+  | cons op rest ih =>
+    intro i w w' h hi
+    simp only [WState.runFrom] at h
+    split at h
+    · rename_i w1 h1; exact ih (i + 1) w1 w' h (stepIn_inv h1 hi)
+    · cases h
+
+theorem runTxs_inv : ∀ (txs : List (List TOp)) (w : WState), WInv w → WInv (w.runTxs txs) := by
+  intro txs
+  induction txs with
+  | nil => intro w h; exact h
+  | cons tx rest ih =>
+    intro w hi
+    simp only [WState.runTxs]
+    apply ih
+    cases hr : w.runTx tx with
+    | none => exact hi
+    | some w1 => exact runFrom_inv tx tx 0 w w1 hr hi
+
 end Mfi.World
